@@ -357,6 +357,7 @@ func C02(p *core.Program, r *core.Report) {
 	r.Min("rule guards", 15)
 	checkEndpointRegexps(p, r)
 	checkFreeNumberSearch(p, r)
+	checkBreakOnlyAtBlockBoundary(p, r)
 	// a bundle handed out by the builder does not share its block list with the builder (which may be used again:
 	// a further block added to the builder would be sorted into the earlier bundle's backing array)
 	bb := p.Func(bp7, "BundleBuilder", "Build")
@@ -781,4 +782,122 @@ func sharesBacking(v ssa.Value, src func(ssa.Value) bool, depth int) bool {
 		}
 	}
 	return false
+}
+
+// checkBreakOnlyAtBlockBoundary: Bundle.UnmarshalCbor ends the array of blocks
+// when decoding the next block yields cboring.FlagBreakCode. The block decoder
+// returns the errors of all its reads unchanged, so a 0xff in place of a later
+// field of a block (85 ff; a block that announces a CRC but ends before it)
+// would also end the bundle, silently dropping the partial block: bytes that
+// are no well-formed bundle would be accepted. Necessary: after its array
+// header has been read, the block decoder never returns FlagBreakCode — a
+// deferred conversion of that value exists, armed by a flag that is set
+// before any later read.
+func checkBreakOnlyAtBlockBoundary(p *core.Program, r *core.Report) {
+	un := p.Func(bp7, "CanonicalBlock", "UnmarshalCbor")
+	key := "break-code/" + fname(un) + "/only-at-block-boundary"
+	rule := "a break code ends the bundle's block array only in place of a block: once a block's array header has been read, the block decoder converts cboring.FlagBreakCode from any later read into an ordinary error (a deferred conversion armed by a flag that is set before every later read)"
+	// the deferred converter
+	var flag *ssa.Alloc
+	okConv := false
+	core.EachInstr(un, func(in ssa.Instruction) {
+		d, ok := in.(*ssa.Defer)
+		if !ok {
+			return
+		}
+		mc, ok := d.Call.Value.(*ssa.MakeClosure)
+		if !ok {
+			return
+		}
+		cl := mc.Fn.(*ssa.Function)
+		cmpBreak, storesErr := false, false
+		var flagFV *ssa.FreeVar
+		core.EachInstr(cl, func(i2 ssa.Instruction) {
+			switch x := i2.(type) {
+			case *ssa.BinOp:
+				if x.Op == token.EQL || x.Op == token.NEQ {
+					for _, o := range []ssa.Value{x.X, x.Y} {
+						if u, ok := o.(*ssa.UnOp); ok {
+							if g, ok := u.X.(*ssa.Global); ok && g.Name() == "FlagBreakCode" {
+								cmpBreak = true
+							}
+						}
+						// cboring.FlagBreakCode is a constant of type cboring.Flag (an error type)
+						if mi, ok := o.(*ssa.MakeInterface); ok {
+							if k, ok := mi.X.(*ssa.Const); ok && strings.HasSuffix(k.Type().String(), "cboring.Flag") {
+								if v, isI := core.ConstInt(k); isI && v == constValAbs(p, cbor, "FlagBreakCode") {
+									cmpBreak = true
+								}
+							}
+						}
+					}
+				}
+			case *ssa.Store:
+				if fv, ok := x.Addr.(*ssa.FreeVar); ok && isErrorType(derefNamed(fv.Type())) {
+					if _, isCall := x.Val.(*ssa.Call); isCall {
+						storesErr = true
+					}
+				}
+			case *ssa.UnOp:
+				if fv, ok := x.X.(*ssa.FreeVar); ok && x.Op == token.MUL {
+					if b, ok := derefNamed(fv.Type()).Underlying().(*types.Basic); ok && b.Kind() == types.Bool {
+						flagFV = fv
+					}
+				}
+			}
+		})
+		if cmpBreak && storesErr && flagFV != nil {
+			okConv = true
+			for i, fv := range cl.FreeVars {
+				if fv == flagFV {
+					flag, _ = mc.Bindings[i].(*ssa.Alloc)
+				}
+			}
+		}
+	})
+	if !okConv || flag == nil {
+		r.Fail(key, rule, p.Pos(un.Pos()), "no deferred conversion of FlagBreakCode found in the block decoder: `85 ff` after the payload block is accepted and the partial block dropped")
+		return
+	}
+	armed := func(i ssa.Instruction) bool {
+		st, ok := i.(*ssa.Store)
+		return ok && st.Addr == ssa.Value(flag) && core.IsBoolConst(st.Val, true)
+	}
+	first := true
+	var bad []string
+	n := 0
+	core.EachInstr(un, func(in ssa.Instruction) {
+		c, ok := in.(*ssa.Call)
+		if !ok {
+			return
+		}
+		name := shortName(core.CalleeName(c))
+		isRead := strings.HasPrefix(name, cbor+".Read") || name == cbor+".Unmarshal" || name == "pkg/bpv7.ExtensionBlockManager.ReadBlock" || name == "pkg/bpv7.checkCRCField"
+		if !isRead {
+			return
+		}
+		n++
+		if first {
+			first = false // the array header: its break code is the end of the bundle
+			return
+		}
+		if !core.MustPassBefore(c, armed) {
+			bad = append(bad, p.Pos(c.Pos()))
+		}
+	})
+	r.Check(len(bad) == 0 && n >= 6, key, rule, p.Pos(un.Pos()), "", "reads that can return a break code before the conversion is armed: "+strings.Join(bad, ", "))
+}
+
+// constValAbs: integer value of a named constant of a dependency package (absolute import path).
+func constValAbs(p *core.Program, pkgPath, name string) int64 {
+	for _, pk := range p.SSA.AllPackages() {
+		if pk.Pkg.Path() == pkgPath {
+			if nc, ok := pk.Members[name].(*ssa.NamedConst); ok {
+				if v, ok := core.ConstInt(nc.Value); ok {
+					return v
+				}
+			}
+		}
+	}
+	return -1 << 62
 }
